@@ -17,7 +17,7 @@ import (
 // structure up to that size is in this set (the classic XSW1-8 shapes are trees of <= 5
 // nodes over it).
 
-var treeLabels = []string{"G", "G2", "E", "E=", "W:Extensions", "W:Advice", "W:Object", "W:Foreign", "S", "X(G)", "X(E)"}
+var treeLabels = []string{"G", "G2", "E", "E=", "W:Extensions", "W:Advice", "W:Object", "W:Foreign", "S", "X(G)", "X(E)", "X(R)"}
 var treeRoots = []string{"attacker", "attacker-id=G", "attacker-id=signed-response", "genuine-signed-response"}
 
 func isLeafOnly(l string) bool { return strings.HasPrefix(l, "X(") }
@@ -74,6 +74,9 @@ func treeNode(label string, p treeParts) (el *etree.Element, hang *etree.Element
 	case label == "X(G)":
 		g := attachStandalone(p.g)
 		return idp.EncryptPlaintext(idp.StandaloneBytes(g), idp.EncSpec{}), nil
+	case label == "X(R)":
+		// a whole genuine signed Response as the plaintext of an EncryptedAssertion
+		return idp.EncryptPlaintext(p.signedR, idp.EncSpec{}), nil
 	case label == "X(E)":
 		e := evilAssertion("_evil-2")
 		return idp.EncryptPlaintext(idp.StandaloneBytes(e), idp.EncSpec{}), nil
